@@ -929,7 +929,12 @@ func unop(instr *ssa.UnOp, x value) value {
 func typeAssert(i *interpreter, instr *ssa.TypeAssert, itf iface) value {
 	var v value
 	err := ""
-	if itf.t == nil {
+	if lv, ok := itf.v.(*lazyVal); ok && itf.t == tLazy {
+		itf = lv.assertTo(instr.AssertedType)
+	}
+	if itf.t == tLazy {
+		err = fmt.Sprintf("interface conversion: interface is <undecided JSON value>, not %s", instr.AssertedType)
+	} else if itf.t == nil {
 		err = fmt.Sprintf("interface conversion: interface is nil, not %s", instr.AssertedType)
 
 	} else if idst, ok := instr.AssertedType.Underlying().(*types.Interface); ok {
@@ -947,7 +952,7 @@ func typeAssert(i *interpreter, instr *ssa.TypeAssert, itf iface) value {
 
 	if err != "" {
 		if !instr.CommaOk {
-			panic(err)
+			panic(targetPanic{iface{i.runtimeErrorString, err}})
 		}
 		return tuple{zero(instr.AssertedType), false}
 	}
